@@ -201,7 +201,7 @@ open EphVerif.C05Spec (Dump Audit)
 
 /-- everything the node holds with its expiry; locators are listed for the chunk names `ks`
     (the table is a lookup function), routing contacts are named by `nameOf` -/
-def dumpOf (cfg : Cfg) (ks : List String) (nameOf : Routing.Id → String) (s : State) : Dump :=
+def dumpOf (ks : List String) (nameOf : Routing.Id → String) (s : State) : Dump :=
   { chunks := s.recs.map fun e => (e.1, e.2.expires),
     locators := ks.eraseDups.filterMap fun c => (s.locs c).map fun l => (c, l.exp, l.holders.map fun h => (h.peer, h.exp)),
     contacts := (Routing.allContacts s.routes).map fun c => (nameOf c.id, c.exp),
